@@ -59,6 +59,7 @@ func (e *OpEngine) RunInstance(c *Call) {
 			defer func() { sym.ActiveFacts = nil }()
 			out := e.M.Run(func() interp.Value { return e.M.Call(c.Fn, args, nil) })
 			e.Paths++
+			e.did("S6.panic", key)
 			switch out.Kind {
 			case interp.Panicked:
 				e.find("S6.panic", key, "panic:"+panicClass(out.Panic.Msg), e.P.Pos(out.Panic.Pos),
@@ -205,6 +206,8 @@ func (e *OpEngine) checkNode(n *Node, c *Call, caseName string) {
 		anyTracked = anyTracked || os.tracked
 	}
 	e.StateChecks++
+	e.did("C08.state", key)
+	e.did("S1c.edges", key)
 	expTracked := !anyDirty && anyTracked && !comparisonOps[n.Method]
 	expDirty := anyDirty && !comparisonOps[n.Method]
 	flags := fmt.Sprintf("operands tracked=%v dirty=%v", anyTracked, anyDirty)
@@ -348,6 +351,7 @@ func (e *OpEngine) checkGradients(n *Node, c *Call, caseName, key, pos string, o
 		cpos := e.P.FuncPos(fnv.Fn)
 		e.Closures[core.FuncKey(fnv.Fn)] = true
 		e.ClosureRuns++
+		e.did("A1.backward", ckey)
 		out := e.M.Run(func() interp.Value { return e.M.CallValue(fnv, nil) })
 		label := c.Label
 		if caseName != "" {
@@ -384,6 +388,7 @@ func (e *OpEngine) checkGradients(n *Node, c *Call, caseName, key, pos string, o
 		}
 		// value
 		e.VJPChecks++
+		e.did("A2.vjp", ckey)
 		want, ok, rule := w.VJP(op, role)
 		if !ok {
 			e.undecided("A2.vjp", ckey, "no-rule", cpos, rule)
@@ -405,11 +410,14 @@ func (e *OpEngine) checkGradients(n *Node, c *Call, caseName, key, pos string, o
 			}
 		}
 		got, want = unitCanon(got, dt), unitCanon(want, dt)
+		if eqs := e.M.SymEqualities(); len(eqs) > 0 {
+			got, want = got.SubstSym(eqs), want.SubstSym(eqs)
+		}
 		if got.Key() != want.Key() {
 			verdict, wit := e.numericCompare(got, want, dt)
 			switch verdict {
 			case 1:
-				e.Findings = append(e.Findings, Finding{Rule: "A2.vjp", Construct: ckey, What: "value", Pos: cpos,
+				e.Findings = append(e.Findings, Finding{Rule: "A2.vjp", Construct: ckey, What: valueSignature(got, want), Pos: cpos,
 					Detail:  fmt.Sprintf("backward rule computes %s but the vector-Jacobian product (%s) is %s [instance %s; path %s]", clip(got.String()), rule, clip(want.String()), label, e.M.PathString()),
 					Witness: wit})
 			default:
@@ -420,6 +428,7 @@ func (e *OpEngine) checkGradients(n *Node, c *Call, caseName, key, pos string, o
 		// A3: finite where differentiable
 		if !c.SkipFinite && len(e.LeafRng) > 0 {
 			e.FinChecks++
+			e.did("A3.finite", ckey)
 			rg := w.InfoOf(gt).Rng
 			if !rg.IsFinite() {
 				e.find("A3.finite", ckey, "non-finite", cpos,
@@ -438,6 +447,19 @@ func unitCanon(x sym.Expr, dims []sym.Poly) sym.Expr {
 		}
 	}
 	return x.SubstIdx(m)
+}
+
+// valueSignature classifies a value disagreement so that known findings do not mask different ones:
+// "value:scaled-by-inverse-size" when the rule's result is the defined one divided by dimension sizes only.
+func valueSignature(got, want sym.Expr) string {
+	if want.IsZero() || got.IsZero() {
+		return "value"
+	}
+	q := sym.Div(got, want)
+	if sym.OnlyInverseSizes(q) {
+		return "value:scaled-by-inverse-size"
+	}
+	return "value"
 }
 
 func rngs(rs []spec.Ival) string {
@@ -558,7 +580,7 @@ func (e *OpEngine) numericCompare(got, want sym.Expr, dims []sym.Poly) (int, str
 			}
 			a, err1 := evalWithDefaults(got, env)
 			b, err2 := evalWithDefaults(want, env)
-			if err1 == nil && err2 == nil {
+			if err1 == nil && err2 == nil && e.realCondsHold(env) {
 				if !closeEnough(a, b) {
 					return 1, fmt.Sprintf("at %s index %v: rule gives %.6g, definition gives %.6g", sym.ModelString(mdl), pos, a, b)
 				}
@@ -579,6 +601,16 @@ func (e *OpEngine) numericCompare(got, want sym.Expr, dims []sym.Poly) (int, str
 		}
 	}
 	return 0, ""
+}
+
+func (e *OpEngine) realCondsHold(env *sym.EvalEnv) bool {
+	for _, c := range e.M.RealConds() {
+		v, err := c.Eval(env)
+		if err != nil || !v {
+			return false
+		}
+	}
+	return true
 }
 
 func evalWithDefaults(x sym.Expr, env *sym.EvalEnv) (float64, error) {
